@@ -29,7 +29,7 @@ Definition judge_format (c : ocase) : N := code_of (corr_ocase c) (prop_ocase c)
    bytes ([oc_obs] is ignored).  The Spec readers then run on the model's bytes, which stand
    for the implementation's exactly when the hashes agree; otherwise only the disagreement is
    reported and the harness resubmits the case with the bytes themselves. *)
-Definition judge_hash (ch : ocase * (Z * Z * Z)) : N :=
+Definition judge_hash (ch : ocase * (Z * Z * Z * Z)) : N :=
   let c := fst ch in
   match model_ocase c with
   | Ok l =>
@@ -110,7 +110,7 @@ Definition judge_cli (c : ocli) : N := code_of (corr_ocli c) (prop_ocli c).
 (* ------------------------------------------------------------------ one case type for the generated files *)
 Inductive anycase :=
 | CFormat (c : ocase)
-| CHash (c : ocase) (h : Z * Z * Z)
+| CHash (c : ocase) (h : Z * Z * Z * Z)
 | CResolve (c : string * string * string * string * string)
 | CDirective (c : odcase)
 | CCli (c : ocli).
